@@ -3,6 +3,7 @@ import DdsProofs.Args
 import DdsProofs.Memo
 import DdsProofs.History
 import DdsProofs.MemoExample
+import DdsProofs.Scope
 /-!
 # C01 — memoised evaluation returns exactly what plain execution would return
 
@@ -120,5 +121,29 @@ theorem history_correct_loadfree (U : Universe) (m x : Nat) (noop : Bool) (hist 
       ((plainFn W W.fuel { kept := (runHist m { store := { noop := noop }, kept := [] } hist).kept } fn env).1).map some :=
   history_value U m x noop hist (histOK_of_loadFree U m x hist _ hok) W rq E hrq ha
     (externalLoads_of_loadFree hlf _ rq fn env fis paths ha) hs
+
+/-! ## Discovery of the module names of a function body (outside the pipeline model: real Python scoping)
+
+The pipeline model takes the tracked variables and the callees of a function as given (`Fn.vars`, the items). Which names
+of a body are module names at all is decided by the code from one set of local names (`DdsModel/Scope.lean`, the fragment
+of Python with lambdas, comprehensions, assignment expressions, nested functions, `global` / `nonlocal`). -/
+
+/-- **every module name the function reads is looked up, and nothing else**: the names the analysis looks up in the
+module are, occurrence by occurrence, the names that Python's chain of scopes resolves to the module -/
+theorem names_looked_up_are_module_reads (params : List String) (body : Scope.Stmt) :
+    Scope.ddsNames params body = Scope.pyGlobalReads params body :=
+  Scope.dds_names_eq params body
+
+/-- the single set of local names the code keeps while it walks nested scopes decides what Python's chain of scopes decides -/
+theorem one_set_of_locals_suffices (chain : List Scope.Sc) (x : String) :
+    x ∈ Scope.flat chain ↔ Scope.isGlobal chain x = false :=
+  Scope.mem_flat x chain
+
+/-- the computation before the `fix:` commit (every name stored anywhere in the function is local everywhere) missed module
+names: a module variable also used as the variable of a comprehension, or assigned in a nested function -/
+theorem brute_force_locals_miss_module_names :
+    ("X" ∈ Scope.pyGlobalReads [] Scope.shadowComp ∧ "X" ∉ Scope.oldNames [] Scope.shadowComp) ∧
+    ("Z" ∈ Scope.pyGlobalReads [] Scope.shadowNested ∧ "Z" ∉ Scope.oldNames [] Scope.shadowNested) :=
+  ⟨Scope.old_misses_comprehension, Scope.old_misses_nested⟩
 
 end Dds.C01
